@@ -90,6 +90,15 @@ func thesaurusQueries(c *ctx, seg segment.Segment, spec sx.V) (bad string) {
 					bm.Add(uint32(d))
 				}
 			}
+			if mask%3 == 2 {
+				// the caller's bitmap also names numbers that are no documents of this segment (a
+				// bitmap shared by several segments): they exclude nothing here
+				nd := uint32(spec.L[pNDocs].N)
+				for k := uint32(0); k < nd+2; k++ {
+					bm.Add(nd + 7 + 3*k)
+				}
+				bm.Add(1 << 20)
+			}
 			got, err := zh.DumpThesaurus(ts, name, bm)
 			if err != nil {
 				return fmt.Sprintf("thesaurus %q with exclusion %v: error %v", name, bm.ToArray(), err)
